@@ -69,7 +69,9 @@ class C19(Prop):
     ID = 'C19'
     N_QUICK = 4000
     N_THOROUGH = 60000
-    RULE = ('one fresh instrumented port per case (number / integer+min+max / boolean / read-only), a first sequence at '
+    RULE = ('one fresh instrumented port per case (number / integer+min+max / boolean / read-only; driver hooks '
+            'handle_disable / handle_enable awaiting 0 / 50 / 300 ms and raising in 15 %; write_value taking 0 / 60 / 120 ms), '
+            'a first sequence at '
             't=0 and up to 5 further timed operations (new sequence incl. empty = clear, expression on/off, disable / '
             'enable, refused requests: length mismatch, out-of-domain value, malformed body), each at an instant drawn '
             'mostly from the predicted firing instants of the running sequence (incl. re-arm and finish instants, +-1 ms), '
@@ -83,15 +85,39 @@ class C19(Prop):
                'calls against the sequence\'s sleep timers; CPython asyncio ready-queue / timer discipline as modelled by '
                'Sequence.iter',
                'BasePort._sequence is read (named by the property\'s anchor) to observe "reports no active sequence"']
-    ASSUMPTIONS = ['"written" is taken at submission to the port\'s write path (public transform_and_write_value); the '
-                   'driver-side lag is C14\'s',
+    ASSUMPTIONS = ['timing and cancellation are judged at submission to the port\'s write path (public '
+                   'transform_and_write_value); on the driver side the oracle requires every submitted value to reach '
+                   'write_value() in order, however slow the driver (no timing there: the lag is C14\'s)',
+                   'the stop instant of disable is the instant disable() is handled, not the instant it returns (the '
+                   'driver\'s handle_disable() is awaited behind the stop and may take long or raise)',
                    'operations of one case start at distinct milliseconds (two cancelling calls overlapping inside one '
                    'cancellation are outside the model: the driver reports `overlap`)',
                    'sequence delay/repeat ranges are not enforced by the request schema (min/max keywords): modelled as is']
 
     # ---------------------------------------------------------------- set-up
+    STALL_ITERATIONS = 4000      # loop iterations within one virtual instant before a case is declared stalled
+
     def setup(self):
         self.loop = vloop.new_loop()
+        # watchdog: a hub that spins inside one virtual instant without ever reaching the end of the observation
+        # window (e.g. a zero-delay sequence whose values are no longer submitted) must end the case, not hang the check
+        self._stall = {'t': None, 'n': 0, 'cb': None}
+        run_once = self.loop._run_once
+
+        def counted_run_once():
+            st = self._stall
+            if st['cb'] is not None:
+                t = self.loop.time()
+                if t == st['t']:
+                    st['n'] += 1
+                    if st['n'] > self.STALL_ITERATIONS:
+                        cb, st['cb'] = st['cb'], None
+                        cb()
+                else:
+                    st['t'], st['n'] = t, 0
+            run_once()
+
+        self.loop._run_once = counted_run_once
         logging.disable(logging.CRITICAL)
         from qtoggleserver.conf import settings
         settings.persist.driver = 'qtoggleserver.drivers.persist.JSONDriver'
@@ -125,6 +151,7 @@ class C19(Prop):
                 self.c19_subs = []
                 self.c19_writes = []
                 self.c19_hook = None
+                self.c19_script = None      # {'dis': [ms, raises], 'en': [ms, raises], 'wlat': ms} while a case runs
 
             async def read_value(self):
                 return self._cur
@@ -132,7 +159,26 @@ class C19(Prop):
             async def write_value(self, value):
                 if self.c19_hook is not None:
                     self.c19_hook('w', value)
+                sc = self.c19_script
+                if sc and sc['wlat']:
+                    await asyncio.sleep(sc['wlat'] / 1000.0)       # a slow driver
                 self._cur = value
+
+            async def _c19_driver_hook(self, which):
+                sc = self.c19_script
+                if not sc:
+                    return
+                lat, raises = sc[which]
+                if lat:
+                    await asyncio.sleep(lat / 1000.0)
+                if raises:
+                    raise RuntimeError('c19 scripted driver failure')
+
+            async def handle_disable(self):
+                await self._c19_driver_hook('dis')
+
+            async def handle_enable(self):
+                await self._c19_driver_hook('en')
 
             async def transform_and_write_value(self, value):
                 if self.c19_hook is not None:
@@ -141,6 +187,15 @@ class C19(Prop):
 
         self.SeqPort = SeqPort
         self.level = core_api.ACCESS_LEVEL_ADMIN
+        try:
+            self.queue_size = int(core_ports.BasePort.WRITE_VALUE_QUEUE_SIZE)
+        except Exception:
+            self.queue_size = 16
+
+    @staticmethod
+    def _script(case):
+        h = case.get('hooks') or {}
+        return {'dis': list(h.get('dis', [0, False])), 'en': list(h.get('en', [0, False])), 'wlat': case.get('wlat', 0)}
 
     def teardown(self):
         try:
@@ -186,6 +241,17 @@ class C19(Prop):
         cases.append({'port': {'type': 'boolean', 'writable': True, 'integer': False, 'min': None, 'max': None},
                       'cap': 30, 'horizon': 500, 'ops': [op(0, 1, 0, seq([True, False], [10, 20], 3)),
                                                          op(45, 1, 2, ['en', False]), op(60, 1, 0, seq([True], [1], 1))]})
+        # the driver's handle_disable() awaits / raises behind the stop (seed C19-r2-1): nothing of the sequence may follow
+        for lat, raises in ((300, False), (50, True), (0, True)):
+            cases.append({'port': num, 'cap': 40, 'horizon': 700, 'hooks': {'dis': [lat, raises], 'en': [50, False]},
+                          'wlat': 0, 'ops': [op(0, 1, 0, seq([1, 2], [40, 40], 0)), op(100, 1, 0, ['en', False]),
+                                             op(130, 1, 0, seq([5], [10], 1)), op(450, 1, 0, ['en', True]),
+                                             op(560, 1, 0, seq([7, 8], [20, 20], 1))]})
+        # a slow driver (seed C19-r2-2): every submitted value reaches write_value, in order
+        cases.append({'port': num, 'cap': 40, 'horizon': 600, 'wlat': 120,
+                      'ops': [op(0, 1, 0, seq([1, 2, 3, 4, 5, 6], [40, 40, 40, 40, 40, 40], 1))]})
+        cases.append({'port': num, 'cap': 30, 'horizon': 600, 'wlat': 60,
+                      'ops': [op(0, 1, 0, seq([1, 2, 3], [0, 0, 25], 0)), op(160, -1, 1, seq([11, 12], [0, 0], 3))]})
         # refusals
         cases.append({'port': {'type': 'number', 'writable': False, 'integer': False, 'min': None, 'max': None},
                       'cap': 30, 'horizon': 300, 'ops': [op(0, 1, 0, seq([1], [10], 1)), op(5, 1, 0, seq([1], [], 1))]})
@@ -234,6 +300,10 @@ class C19(Prop):
         cap = rng.choice([12, 25, 40, 60])
         ops = []
         used = set()
+        # the driver: how long handle_disable / handle_enable await and whether they raise; how long a write takes
+        hooks = {'dis': [rng.choice([0, 0, 0, 50, 300]), rng.random() < 0.15],
+                 'en': [rng.choice([0, 0, 0, 50, 300]), rng.random() < 0.15]}
+        wlat = rng.choice([0, 0, 0, 0, 60, 120])
         # tracked (predicted) state to aim the later operations
         cur = None          # (start, delays, rep) of the sequence believed to run
         enabled, has_expr = True, False
@@ -322,11 +392,13 @@ class C19(Prop):
             elif o[0] == 'en':
                 if not o[1] and enabled:
                     cur = None
+                if bool(o[1]) != enabled:
+                    used.add(at + hooks['en' if o[1] else 'dis'][0])     # no later operation at the hook's end instant
                 enabled = o[1]
             elif o[0] == 'expr' and port['writable']:
                 cur = None
                 has_expr = o[1]
-        return {'port': port, 'cap': cap, 'horizon': horizon, 'ops': ops}
+        return {'port': port, 'cap': cap, 'horizon': horizon, 'ops': ops, 'hooks': hooks, 'wlat': wlat}
 
     @staticmethod
     def _in_domain(port, v):
@@ -375,8 +447,8 @@ class C19(Prop):
         for _ in range(3):
             await asyncio.sleep(0)
         t0 = loop.time()
-        obs = {'subs': [], 'writes': [], 'rets': {}, 'frozen': False, 'active': None, 'enabled': None, 'expr': None,
-               'stop_ms': None, 'errors': []}
+        obs = {'subs': [], 'writes': [], 'writes_all': [], 'rets': {}, 'frozen': False, 'active': None, 'enabled': None, 'expr': None,
+               'stop_ms': None, 'errors': [], 'stalled': False}
         done = loop.create_future()
         tasks = []
         handles = []
@@ -384,10 +456,15 @@ class C19(Prop):
         def ms():
             return int(round((loop.time() - t0) * 1000))
 
+        def stalled():
+            obs['stalled'] = True
+            freeze()
+
         def freeze():
             if obs['frozen']:
                 return
             obs['frozen'] = True
+            self._stall['cb'] = None
             obs['stop_ms'] = ms()
             obs['active'] = getattr(port, '_sequence', None) is not None
             obs['enabled'] = port.is_enabled()
@@ -408,7 +485,14 @@ class C19(Prop):
             else:
                 obs['writes'].append(value)
 
-        port.c19_hook = hook
+        def hook_all(kind, value):
+            if kind == 'w':
+                obs['writes_all'].append(value)        # the driver side is followed until the writer has caught up
+            hook(kind, value)
+
+        port.c19_hook = hook_all
+        port.c19_script = self._script(case)
+        self._stall.update(t=None, n=0, cb=stalled)
 
         async def run_op(idx, o):
             handler = FakeHandler(self.level)
@@ -432,6 +516,8 @@ class C19(Prop):
                     res = e.code
                 elif e.status == 400:
                     res = 'invalid-request'
+                elif o[0] == 'en' and e.status in (500, 502):
+                    res = 'port-error'             # the driver's handle_enable / handle_disable failed
                 else:
                     res = f'{e.status}:{e.code}'
             except asyncio.CancelledError:
@@ -455,7 +541,7 @@ class C19(Prop):
             handles.append(loop.call_at(t0 + o['at'] / 1000.0 + o['rank'] * self.res / 4, hop, o['hops'], idx, o['op']))
         handles.append(loop.call_at(t0 + case['horizon'] / 1000.0 + 2 * self.res / 4, freeze))
         await done
-        # ---- clean up (nothing is recorded any more)
+        # ---- clean up (no submission / result is recorded any more; the driver log `writes_all` goes on)
         for h in handles:
             h.cancel()
         for _ in range(6):
@@ -463,15 +549,31 @@ class C19(Prop):
         for t in tasks:
             if not t.done():
                 t.cancel()
+        port.c19_script = {'dis': [0, False], 'en': [0, False], 'wlat': port.c19_script['wlat']}
         try:
             await port.set_sequence([], [], 0)
         except BaseException:       # the unrepaired code raises CancelledError from a stuck sequence
             pass
+        # a playback task that survived (a change that no longer cancels it) must not keep the clock from advancing
+        me = asyncio.current_task()
+        for t in asyncio.all_tasks() - tasks_before - {me}:
+            try:
+                if getattr(t.get_coro(), '__qualname__', '').endswith('Sequence._loop'):
+                    t.cancel()
+            except Exception:
+                pass
         for _ in range(3):
             await asyncio.sleep(0)
+        # let the writer catch up with everything that was submitted (slow driver)
+        wlat = port.c19_script['wlat']
+        if wlat:
+            backlog = max(0, len(obs['subs']) - len(obs['writes_all'])) + 8
+            await asyncio.sleep((backlog * wlat + 10) / 1000.0)
+        else:
+            await asyncio.sleep(0.002)
         port.c19_hook = None
-        # whatever the case has left running (a playback task that was not cancelled) must not leak into the next case
-        me = asyncio.current_task()
+        port.c19_script = None
+        # whatever the case has left running must not leak into the next case
         for t in asyncio.all_tasks() - tasks_before - {me}:
             t.cancel()
         for _ in range(3):
@@ -498,8 +600,10 @@ class C19(Prop):
         b = lambda x: '1' if x else '0'
         opt = lambda x: '-' if x is None else str(int(x * 2))
         fuel = 40 * case['cap'] + 40 * len(case['ops']) + 3000
+        sc = self._script(case)
         parts = [f"run {b(fix)} {b(fix)} {case['cap']} {self.max_items} {case['horizon']} {fuel} 1 {b(pc['writable'])} 0 "
-                 f"{b(pc['type'] == 'boolean')} {b(pc['integer'])} {opt(pc['min'])} {opt(pc['max'])}"]
+                 f"{b(pc['type'] == 'boolean')} {b(pc['integer'])} {opt(pc['min'])} {opt(pc['max'])} "
+                 f"{sc['dis'][0]} {b(sc['dis'][1])} {sc['en'][0]} {b(sc['en'][1])}"]
         for idx, o in enumerate(case['ops']):
             op = o['op']
             if op[0] == 'seq':
@@ -563,13 +667,19 @@ class C19(Prop):
         # operations that start in the very instant at which the observation window closes race with the freeze:
         # neither their results nor the final flags are compared then
         stop = real['stop_ms']
-        early = lambda i: case['ops'][i]['at'] < stop
+        sc = self._script(case)
+
+        def ends(i):        # the instant at which the operation is over at the latest (driver hook included)
+            o = case['ops'][i]
+            return o['at'] + (sc['en' if o['op'][1] else 'dis'][0] if o['op'][0] == 'en' else 0)
+
+        early = lambda i: ends(i) < stop
         mr = {i: (r, p if case['ops'][i]['op'][0] in ('seq', 'bad') else None) for i, (r, p) in model['rets'].items()
               if early(i)}
         rr = {i: v for i, v in real['rets'].items() if early(i)}
         if rr != mr:
             return f"operation results: real {sorted(rr.items())} model {sorted(mr.items())}"
-        if not any(o['at'] == stop for o in case['ops']):
+        if not any(o['at'] == stop or ends(i) == stop for i, o in enumerate(case['ops'])):
             for k in ('active', 'enabled', 'expr'):
                 if real[k] is not None and real[k] != model[k]:
                     return f'final {k}: real {real[k]} model {model[k]}'
@@ -586,14 +696,55 @@ class C19(Prop):
         installed = []      # dicts: idx, start, values, delays, rep, end (time of the stopping operation or None), end_idx
         running = None
         tags = set()
+        if obs.get('stalled'):
+            return Failure('property', f'the hub span for more than {self.STALL_ITERATIONS} loop iterations at {stop} ms '
+                                       f'with only {len(obs["subs"])} values submitted (a sequence without positive '
+                                       f'delays submits a value every other iteration)'), tags
+        sc = self._script(case)
+        hook_ends = []      # (time, flag value to restore) of driver hooks that will raise
+        ambiguous_end = False
         for i in ops:
             o = case['ops'][i]
             op = o['op']
+            if o['at'] >= stop and obs['rets'].get(i) is None:
+                continue          # starts at / behind the end of the window
+            # driver hooks (handle_enable / handle_disable) that raised in the meantime put the flag back
+            for t, back in [h for h in hook_ends if h[0] <= o['at']]:
+                enabled = back
+                hook_ends.remove((t, back))
             ret = obs['rets'].get(i)
+            if op[0] == 'en':
+                # the stop instant is the instant disable() is handled, not the instant it returns: the driver's
+                # handle_disable() is awaited behind it and may take long or raise
+                lat, raises = sc['en' if op[1] else 'dis']
+                acts = (bool(op[1]) != enabled)
+                expect_res = 'port-error' if (acts and raises) else 'ok'
+                due = o['at'] + (lat if acts else 0)
+                if ret is None:
+                    if due < stop:
+                        return Failure('property', f'enable/disable #{i} at {o["at"]} ms never returned'), tags
+                elif ret[0] != expect_res:
+                    return Failure('property', f'enable/disable #{i} at {o["at"]} ms returned {ret[0]}, expected '
+                                               f'{expect_res}'), tags
+                if acts:
+                    if not op[1] and running is not None:
+                        running['end'], running['end_idx'] = o['at'], (i if ret is not None else None)
+                        running = None
+                        tags.add('stopped-by-disable')
+                    if lat:
+                        tags.add('driver-hook-awaits')
+                    if raises:
+                        tags.add('driver-hook-raises')
+                    enabled = bool(op[1])
+                    if raises:
+                        if lat == 0:
+                            enabled = not enabled
+                        else:
+                            hook_ends.append((due, not enabled))
+                            ambiguous_end = ambiguous_end or due == stop
+                continue
             if ret is None:
-                if o['at'] < stop:
-                    return Failure('property', f'operation #{i} {op[0]} at {o["at"]} ms never returned'), tags
-                continue          # started at / behind the end of the window
+                return Failure('property', f'operation #{i} {op[0]} at {o["at"]} ms never returned'), tags
             res = ret[0]
             if op[0] == 'bad':
                 tags.add('malformed')
@@ -636,14 +787,6 @@ class C19(Prop):
                     installed.append(running)
                 else:
                     tags.add('cleared')
-            elif op[0] == 'en':
-                if res != 'ok':
-                    return Failure('property', f'enable/disable #{i} failed: {res}'), tags
-                if not op[1] and enabled and running is not None:
-                    running['end'], running['end_idx'] = o['at'], i
-                    running = None
-                    tags.add('stopped-by-disable')
-                enabled = bool(op[1])
             elif op[0] == 'expr':
                 if not pc['writable']:
                     continue
@@ -654,6 +797,9 @@ class C19(Prop):
                     running = None
                     tags.add('stopped-by-expression')
                 has_expr = bool(op[1])
+        for t, back in hook_ends:
+            if t < stop:
+                enabled = back
         # attribute the submissions to the installed sequences by value (value sets are disjoint by construction)
         owner = {}
         for q in installed:
@@ -720,13 +866,29 @@ class C19(Prop):
                                                    f'sequence'), tags
         if running is None and obs['active'] and not by_cap:
             return Failure('property', 'no sequence should be active but the port reports one'), tags
-        if obs['enabled'] != enabled and not by_cap:
+        if obs['enabled'] != enabled and not by_cap and not ambiguous_end:
             return Failure('property', f'port enabled={obs["enabled"]} but the operations say {enabled}'), tags
-        # the driver sees what was submitted, in order
-        w = [enc_val(v) if not isinstance(v, str) else v for v in obs['writes']]
-        s = [v for _, v in real['subs']]
-        if w != s[:len(w)] or len(w) + 3 < len(s):
-            return Failure('property', f'driver write log {w[:8]}… is not the submitted values {s[:8]}… in order'), tags
+        # The driver-side half: the hub WRITES the values. Every value that was submitted reaches write_value(), in the
+        # order of submission, however slow the driver is (delays are not checked on this side: the lag between
+        # submission and driver is C14's; its theorem `write_order` (Props/C14.lean) — what has entered the driver,
+        # is held by the writer or queued is the submission sequence minus the entries dropped at full capacity, in
+        # order — is why nothing may be missing or reordered below the queue capacity). The harness has let the
+        # writer catch up after the window; what was submitted behind the window may follow at the end.
+        w = [enc_val(v) if not isinstance(v, str) else v for v in obs['writes_all']]
+        sv = [v for _, v in real['subs']]
+        if sc['wlat']:
+            tags.add(f'slow-driver-{sc["wlat"]}ms')
+            if len(w) > len(obs['writes']):
+                tags.add('driver-behind-at-window-end')
+        if len(sv) < self.queue_size:
+            if w[:len(sv)] != sv:
+                k = next(i for i in range(len(sv)) if i >= len(w) or w[i] != sv[i])
+                return Failure('property', f'submitted value #{k} ({sv[k]}) did not reach the driver in its turn: driver '
+                                           f'log {w[max(0, k - 3):k + 4]}, submitted {sv[max(0, k - 3):k + 4]}'), tags
+        else:
+            it = iter(sv)
+            if not all(any(x == y for y in it) for x in w[:len(sv)]):
+                return Failure('property', 'the driver log is not in the order of submission'), tags
         return None, tags
 
     # ---------------------------------------------------------------- one case
